@@ -383,8 +383,33 @@ func exprString(e ast.Expr) string {
 }
 
 func shapeFacts(fd *ast.FuncDecl) map[string]interface{} {
-	var conds, calls, sels, cmps, rets []string
+	var conds, calls, sels, cmps, rets, assigns []string
+	depth := 0
+	var stack []ast.Node
 	ast.Inspect(fd.Body, func(n ast.Node) bool {
+		if n == nil {
+			if _, ok := stack[len(stack)-1].(*ast.BlockStmt); ok {
+				depth--
+			}
+			stack = stack[:len(stack)-1]
+			return true
+		}
+		stack = append(stack, n)
+		switch x := n.(type) {
+		case *ast.BlockStmt:
+			depth++
+		case *ast.AssignStmt:
+			// which state is written, and how deeply nested (an assignment moved into or out of a branch shows)
+			for _, l := range x.Lhs {
+				ls := exprString(l)
+				if ls == "_" || ls == "err" || ls == "ok" {
+					continue
+				}
+				assigns = append(assigns, fmt.Sprintf("d%d:%s%s", depth, ls, x.Tok.String()))
+			}
+		case *ast.IncDecStmt:
+			assigns = append(assigns, fmt.Sprintf("d%d:%s%s", depth, exprString(x.X), x.Tok.String()))
+		}
 		switch x := n.(type) {
 		case *ast.BinaryExpr:
 			switch x.Op {
@@ -425,7 +450,7 @@ func shapeFacts(fd *ast.FuncDecl) map[string]interface{} {
 		}
 		return true
 	})
-	return map[string]interface{}{"conds": conds, "calls": calls, "select": sels, "cmps": cmps, "returns": rets}
+	return map[string]interface{}{"conds": conds, "calls": calls, "select": sels, "cmps": cmps, "returns": rets, "assigns": assigns}
 }
 
 // ---------- proto numbers
